@@ -367,3 +367,55 @@ def rule_hidden_flag(ctx, cfg, prog, rule='R-HIDDEN/flag'):
                     if sub:
                         work.append((cal, sub, name))
     return n
+
+
+def rule_hidden_all(ctx, cfg, prog, rule='R-HIDDEN/all'):
+    """the four key-derivation routines: a delegation component of the OUTPUT key (`out.b[...]`, written directly or handed to a helper
+    as a non-const object) is produced only after `omitAllFromKeysUnlessPresent` of the attribute list has been tested on every path
+    (must-pass on the CFG).  With that flag set no slot outside the list may stay fillable; a free-slot copy that some path reaches
+    without the test keeps slots open that the caller asked to hide.  Independent of the loop structure."""
+    n = 0
+    byname = {}
+    for f in scheme_functions(prog):
+        byname.setdefault(f['qn'], f)
+    for name in KEY_DERIVATION:
+        f = byname.get(WK + name)
+        if f is None:
+            raise bm.AnalysisBroken('R-HIDDEN/all: %s not found' % name)
+        outs = ['P:%s' % p['name'] for p in f.get('params', []) if _rec_of_type(p['t'])[0] == WK + 'SecretKey' and not _rec_of_type(p['t'])[1]]
+        lists = ['P:%s' % p['name'] for p in f.get('params', []) if _rec_of_type(p['t'])[0] == WK + 'AttributeList']
+        if len(outs) != 1 or not lists:
+            raise bm.AnalysisBroken('R-HIDDEN/all: %s: output key / attribute list not identified' % name)
+        out = outs[0]
+        g = pr.build(f)
+        tests = []
+        for nd in g.cond_nodes():
+            for x in walk(nd.ast):
+                if x.get('k') == 'member' and x.get('name') == 'omitAllFromKeysUnlessPresent' and pr.norm_obj(pr.canon(x['base'])) in lists:
+                    tests.append(nd.id)
+        for nd in g.nodes:
+            if nd.ast is None or nd.kind not in ('stmt', 'cond'):
+                continue
+            hit = None
+            for x in walk(nd.ast):
+                if x.get('k') == 'assign' and pr.norm_obj(pr.canon(x['lhs'])).startswith(out + '.b['):
+                    hit = x
+                elif x.get('k') == 'call':
+                    th = x.get('this')
+                    if th is not None and pr.norm_obj(pr.canon(th)).startswith(out + '.b[') and not (prog.callee(x, f) or {}).get('const_method'):
+                        hit = x
+                    cal = prog.callee(x, f)
+                    for i, a in enumerate(x.get('args', [])):
+                        if pr.norm_obj(pr.canon(a)).startswith(out + '.b[') and cal is not None and i < len(cal.get('params', [])):
+                            pt = cal['params'][i]['t']
+                            if pt.get('k') in ('ref', 'ptr') and not (pt.get('pointee') or {}).get('const'):
+                                hit = x
+            if hit is None:
+                continue
+            n += 1
+            ok = any(g.must_pass_node(t, nd.id) for t in tests)
+            ctx.ob(rule, ok, 'hiddenall|%s|%s' % (name, loc_str(hit)), loc_str(hit),
+                   '%s: a delegation component of the derived key is written at %s although some path reaches it without a test of '
+                   '%s.omitAllFromKeysUnlessPresent: with that flag set the slot stays fillable in the derived key' % (name, loc_str(hit), lists[0][2:]),
+                   cfg=cfg, sample=dict(config=cfg, derivation=name, site=loc_str(hit)))
+    return n
